@@ -128,9 +128,10 @@ def add_twin_file(prog, rng, vary=True):
             return [v[0], [bump(x) for x in v[1]]]
         return v
 
-    for t in f["tests"]:
+    f["module_events"] = [e for e in f.get("module_events", []) if e.get("t") != "stmt"]
+    for t in [{"events": f["module_events"]}] + f["tests"]:
         # free-text statements carry event ids inside their text: they are not copied
-        t["events"] = [e for e in t["events"] if e.get("t") != "stmt"]
+        t["events"][:] = [e for e in t["events"] if e.get("t") != "stmt"]
         for e in t["events"]:
             if "eid" in e:
                 e["eid"] = e["eid"] + "w"
